@@ -195,6 +195,9 @@ def run(ctx):
     # sweeps
     for (c, sec, key, values) in staircase.SWEEPS:
         sets = [vset(res(("sweep", c, key, json.dumps(v)))) for v in values]
+        if key in staircase.MESSAGE_LEVEL and all(x is not None for x in sets):
+            # settings whose documented effect is on wording / extra notices at the same place: compare the messages too
+            sets = [{(x[0], x[1], x[2], x[4]) for x in res(("sweep", c, key, json.dumps(v)))["v"]} for v in values]
         if c == "dry" and all(x is not None for x in sets):
             # DRY windows start at different lines for different window sizes: compare the covered lines instead
             import re as _re
@@ -236,6 +239,8 @@ def run(ctx):
                 if fresh:
                     ctx.discrepancy("not-monotone:%s.%s" % (sec, key), "`%s`: %s.%s %r -> %r (more permissive) reports duplicates at %r that the stricter run does not touch" % (
                         c, sec, key, values[a], values[a + 1], fresh[:3]), rep(i0), P.jobs[i0][0])
+                continue
+            if key in staircase.MESSAGE_LEVEL:
                 continue
             if not sets[a + 1] <= sets[a]:
                 ctx.discrepancy("not-monotone:%s.%s" % (sec, key), "`%s`: %s.%s %r -> %r (more permissive) adds %r" % (
